@@ -495,6 +495,7 @@ class Type2Tag(Tag):
             log.debug("received nak response")
             self.target.sel_req = self.target.sdd_res[:]
             self._target = self.clf.sense(self.target)
+            self._current_sector = 0  # tag was reset by sense
             raise Type2TagCommandError(
                 INVALID_PAGE_ERROR if self.target else nfc.tag.RECEIVE_ERROR)
 
